@@ -215,6 +215,12 @@ func checkC18(r *Run) {
 	light = false
 	fam := c15Family(r.pick(200, 1000))
 	parallelFor(r, len(fam), func(c *enumCtx, i int) { run(c, []byte(fam[i].String())) })
+	// explicit ports whose value is 0, empty components, numeric hosts: the views are defined by the text, not by numbers
+	c0 := &enumCtx{r: r, st: newStats()}
+	for _, u := range []string{"sip:alice@example.com:0;transport=udp", "sip:h:0", "sip:h:00", "sips:u:p@h:000?x=1", "sip:u@h:0?a=1", "sip:1:0", "sip:h:0;", "sip:h:;p", "sip:u@0:0;0?0"} {
+		run(c0, []byte(u))
+	}
+	r.St.merge(c0.st)
 	if !r.quick() {
 		// every target offset for 100 URIs
 		parallelFor(r, 100, func(c *enumCtx, i int) {
